@@ -893,7 +893,7 @@ class MirJob:
                     res["replay_mismatch"] = "solver model for %s did not reproduce natively: %s" % (o["id"], str(rep)[:400])
             res["traces_replayed"] = n_rep
         if bad:
-            rdir = os.path.join(VERIF, "replays", ctx.get("pid", "MIR"))
+            rdir = os.path.join(os.environ.get("VERIF_REPLAY_DIR", os.path.join(VERIF, "replays")), ctx.get("pid", "MIR"))
             os.makedirs(rdir, exist_ok=True)
             rpath = os.path.join(rdir, self.name + ".txt")
             with open(rpath, "w") as f:
